@@ -55,7 +55,7 @@ def func(draw, i):
     if ps and where in ("top", "async", "gen", "staticmethod", "substaticmethod") and draw(st.integers(0, 5)) == 0:
         # an ordinary first parameter that merely LOOKS like a receiver: a module-level function or static method has none
         ps[0]["name"] = draw(st.sampled_from(["self", "cls"]))
-    return dict(i=i, ps=ps if where not in ("property", "subproperty") else [], varargs=draw(st.sampled_from([None, None, "args"])) if where not in ("property", "subproperty") else None,
+    f = dict(i=i, ps=ps if where not in ("property", "subproperty") else [], varargs=draw(st.sampled_from([None, None, "args"])) if where not in ("property", "subproperty") else None,
                 varkw=draw(st.sampled_from([None, None, "kwargs"])) if where not in ("property", "subproperty") else None, where=where,
                 second_trace=draw(st.sampled_from([None, None, "exception", "exception", "other-return"])),
                 wrapdeco=draw(st.sampled_from([False, False, False, True])),
@@ -63,6 +63,10 @@ def func(draw, i):
                 ret_traced=draw(st.sampled_from([1, 2, 3, 5, 6, 9, 11])), yield_traced=draw(st.sampled_from([1, 2, 3, 5, 11])),
                 recv_anno=draw(st.sampled_from([None, None, '"K"', "Any"])),
                 is_traced=draw(st.sampled_from([True, True, True, False])), fname=draw(st.sampled_from(FNAMES)) + str(i))
+    if f["where"] in ("top", "async", "gen", "typescoro") and f["ret_traced"] == 9:
+        # a module-level function with a "private" name: two leading underscores, no trailing ones (no mangling outside classes)
+        f["fname"] = "__private_%d" % i
+    return f
 
 
 @st.composite
